@@ -73,6 +73,16 @@ def project(tree, e):
         if "f" in e:
             if tree[0] == "agg" and tree[1] in ("tuple", "adt", "closure") and e["f"] < len(tree[3]):
                 return tree[3][e["f"]]
+            if tree[0] == "c" and isinstance(tree[1], tuple) and tree[1] and tree[1][0] == "json":
+                # field of an evaluated struct constant
+                try:
+                    v = json.loads(tree[1][1])
+                    if isinstance(v, dict) and e["name"] in v:
+                        return ("c", hashable(v[e["name"]]), e.get("ty"), None)
+                except ValueError:
+                    pass
+            if tree[0] == "c" and isinstance(tree[1], tuple) and not (tree[1] and tree[1][0] == "json") and e["f"] < len(tree[1]) and (tree[2] or "").startswith("("):
+                return ("c", tree[1][e["f"]], e.get("ty"), None)
             if tree[0] == "bin" and tree[1].endswith("WithOverflow"):
                 if e["f"] == 0:
                     return canon_bin(tree[1][:-12], tree[2], tree[3], tuple_first(tree[4]))
